@@ -151,4 +151,69 @@ def _call(self, fv, args, kwargs):
 
 _I.call = _call
 
-CONTRACTS = [RemoveComponent(), UpdateID(), ReplaceIdsConcrete(), LinkContains(), BinaryLinkInit()]
+
+class BinaryReplaceIds(FnContract):
+    """an arithmetic expression holds its operands twice: in the input list of the link and as _left / _right (an identifier, a nested
+    expression or a number)"""
+    property_ids = ('C14', 'C17')
+    target = CL + ":BinaryComponentLink.replace_ids"
+    title = ("every occurrence of the old identifier - as left operand, as right operand (also when it is both), inside nested operand expressions, in the input list and "
+             "as target - becomes the new one; other operands are kept")
+
+    KINDS = ('old', 'other', 'link', 'number')
+
+    def configs(self, tier):
+        return [dict(left=l, right=r) for l in self.KINDS for r in self.KINDS]
+
+    def inputs(self, cfg, P):
+        from pyvc.extract import FunctionText
+        from pyvc.interp import Interp, Hooks
+        old, new = PObj('ComponentID', fields={'k': 'old'}), PObj('ComponentID', fields={'k': 'new'})
+        calls = []
+
+        def operand(kind, side):
+            if kind == 'old':
+                return old
+            if kind == 'other':
+                return PObj('ComponentID', fields={'k': 'other-' + side})
+            if kind == 'number':
+                return 2
+            l = PObj('BinaryComponentLink', fields={'__bases__': ('ComponentLink',), 'side': side})
+            l.methods['replace_ids'] = lambda I, s, a, b: calls.append((s, a, b))
+            return l
+        left, right = operand(cfg['left'], 'left'), operand(cfg['right'], 'right')
+        frm = [x for x in (left, right) if isinstance(x, PObj) and x.cls == 'ComponentID']
+        link = PObj('BinaryComponentLink', fields={'_left': left, '_right': right, '_from': PList(list(frm)), '_to': PObj('ComponentID', fields={'k': 'target'})})
+        ft = FunctionText(CL, 'ComponentLink.replace_ids')
+        st = St(link=link, old=old, new=new, left=left, right=right, frm=frm, calls=calls, ft=ft)
+        return Inputs([link, old, new], st=st)
+
+    def globals_(self, cfg, st):
+        from pyvc.interp import Interp, Hooks
+
+        def b_super(I, *a):
+            return PObj('super', methods={'replace_ids': lambda I2, s_, o, n: Interp(I2.path, I2.globals, Hooks(name=I2.hooks.name), st.ft).run_function(st.ft, [st.link, o, n], {})})
+
+        def b_isinstance(I, v, t):
+            nm = getattr(t, 'name', None)
+            return isinstance(v, PObj) and (v.cls == nm or nm in v.fields.get('__bases__', ()))
+        return {'super': Builtin('super', b_super), 'BinaryComponentLink': PType('BinaryComponentLink'), 'ComponentLink': PType('ComponentLink'),
+                'isinstance': Builtin('isinstance', b_isinstance), 'numbers.Number': PType('Number')}
+
+    def finish(self, cfg, st, P, outcome):
+        qn = "BinaryComponentLink.replace_ids[%s]" % self.cfg_name(cfg)
+        P.check(qn + "/does-not-raise", outcome[0] == 'return')
+        f = st.link.fields
+        for side, before in (('_left', st.left), ('_right', st.right)):
+            now = f[side]
+            if before is st.old:
+                P.check(qn + "/ensures:%s-operand-old-becomes-new" % side[1:], now is st.new)
+            else:
+                P.check(qn + "/ensures:%s-operand-kept" % side[1:], now is before)
+                if isinstance(before, PObj) and before.cls == 'BinaryComponentLink':
+                    P.check(qn + "/ensures:nested-%s-expression-rewritten-too" % side[1:], any(c[0] is before and c[1] is st.old and c[2] is st.new for c in st.calls))
+        now = f['_from'].items
+        P.check(qn + "/ensures:input-list-old-becomes-new-others-kept", len(now) == len(st.frm) and all((a is st.new) if b is st.old else (a is b) for a, b in zip(now, st.frm)))
+
+
+CONTRACTS = [RemoveComponent(), UpdateID(), ReplaceIdsConcrete(), LinkContains(), BinaryLinkInit(), BinaryReplaceIds()]
